@@ -99,7 +99,8 @@ func verifC07OrderBody() {
 
 	m := NewMultiEpoch(&Options{GsfaOnlySignatures: true})
 	nums := []uint64{5, 9, 2, 7} // loaded in no particular order
-	K := 1 + verifChoice("epochs", verifParam("max_epochs", 3))
+	minK := verifParam("min_epochs", 1)
+	K := minK + verifChoice("epochs", verifParam("max_epochs", 3)-minK+1)
 	withReader := map[uint64]bool{}
 	for k := 0; k < K; k++ {
 		ep := &Epoch{epoch: nums[k]}
@@ -236,7 +237,8 @@ func VerifC07Readers() {
 	verifMapOrderNondet(true)
 	m := NewMultiEpoch(&Options{})
 	nums := []uint64{3, 0, 4, 1}
-	K := 1 + verifChoice("epochs", verifParam("max_epochs", 3))
+	minK := verifParam("min_epochs", 1)
+	K := minK + verifChoice("epochs", verifParam("max_epochs", 3)-minK+1)
 	withReader := map[uint64]bool{}
 	for k := 0; k < K; k++ {
 		ep := &Epoch{epoch: nums[k]}
